@@ -199,6 +199,10 @@ class load(DataStreamProcessor):
                 descriptor['name'] = self.name or path
                 if 'encoding' in self.options:
                     descriptor['encoding'] = self.options['encoding']
+                if 'encoding' not in self.options and self.is_utf8_text_file(self.load_source):
+                    # Text that is valid UTF-8 is read as UTF-8 (the encoding guesser otherwise takes
+                    # plain ASCII such as 'SKU+ABCD1234-X' for UTF-7 and rewrites it)
+                    self.options['encoding'] = 'utf-8'
                 self.options['custom_parsers'] = self.get_custom_parsers(self.options.get('custom_parsers'))
                 self.options.setdefault('ignore_blank_headers', True)
                 if 'headers' not in self.options:
@@ -293,6 +297,25 @@ class load(DataStreamProcessor):
                 if name in row:
                     row[name] = plain(row[name])
             yield row
+
+    @staticmethod
+    def is_utf8_text_file(source, sample_size=1 << 20):
+        if not isinstance(source, str) or not os.path.isfile(source):
+            return False
+        if os.path.splitext(source)[1].lower() not in ('.csv', '.tsv', '.txt', '.json', '.ndjson', '.jsonl'):
+            return False
+        with open(source, 'rb') as f:
+            sample = f.read(sample_size)
+        if b'\x00' in sample:
+            return False
+        for cut in range(4):
+            # the sample may end in the middle of a multi-byte character
+            try:
+                sample[:len(sample) - cut].decode('utf-8')
+                return True
+            except UnicodeDecodeError:
+                continue
+        return False
 
     def stripper(self, iterator):
         whitespace = set(' \t\n\r')
